@@ -194,7 +194,7 @@ def w2_case(res, case, tier):
 def run_w2(res, task):
     tier, seed = task[4], task[5]
     for idx, nl in enumerate(W.w2_circuits(task)):
-        if tier == 'quick' and idx % 4 != seed % 4: continue
+        if tier == 'quick' and idx % 4 != seed % 4 and task[1] != 'wide': continue
         si = (idx // 4 if tier == 'quick' else idx) % len(STYLES)
         b = build(nl, STYLES[si])
         nlines = len(b.circuit.lines)
